@@ -344,8 +344,11 @@ def d_const_cstr(f, s, R, db):
 def d_alloc_size(f, s, R, db):
     if s['kind'] == 'assert:overflow:Mul':
         t = s['term']
-        txt = ' '.join(X.canon(norm(R.operand(o))) for o in t['ops'])
-        if ('size_of' in txt and any(k in txt for k in ('::stride', '::len', '::rows'))) or ('::rows' in txt and '::columns' in txt):
+        ops_n = [norm(R.operand(o)) for o in t['ops']]
+        txt = ' '.join(X.canon(o) for o in ops_n)
+        # an item size is `size_of::<T>()` or its evaluated value when it comes from a named constant
+        itemsize = 'size_of' in txt or any(o[0] == 'k' and o[1] in (1, 2, 4, 8) for o in ops_n)
+        if (itemsize and any(k in txt for k in ('::stride', '::len', '::rows'))) or ('::rows' in txt and '::columns' in txt):
             return 'bounded-by-allocation: byte size / element count of an existing in-memory matrix (<= isize::MAX)'
     return None
 
@@ -376,7 +379,7 @@ def d_shape_product(f, s, R, db):
         shp = [x for x in fs if m(('idx', ('fld', '_', 'shape'), ('k', '$d')), x) is not None]
         rest = [x for x in fs if x not in shp]
         dims = sorted(m(('idx', ('fld', '_', 'shape'), ('k', '$d')), x)['$d'] for x in shp)
-        if dims == [0, 1] and all(x[0] == 'call' and x[1].endswith('mem::size_of') for x in rest) and len(rest) <= 1:
+        if dims == [0, 1] and all((x[0] == 'call' and x[1].endswith('mem::size_of')) or (x[0] == 'k' and x[1] in (1, 2, 4, 8)) for x in rest) and len(rest) <= 1:
             return 'bounded-by-allocation: shape[0]*shape[1]*itemsize of the cached (columns, rows) of an in-memory matrix (R18.3) <= its byte size <= isize::MAX'
     return None
 
@@ -433,6 +436,17 @@ def d_first_char(f, s, R, db):
     return None
 
 
+def d_get_range_copy(f, s, R, db):
+    """dst.copy_from_slice(src) with dst = x.get_mut(..n)? / x.get(..n)? and n = src.len(): a successful get(..n) has exactly n elements."""
+    if s['kind'] != 'call:copy_from_slice':
+        return None
+    a = [norm(R.operand(x)) for x in s['term']['args']]
+    b = m(('fld', ('down', ('call~', ('slice::get_mut', 'slice::get'), ('_', ('agg', '_', ('$n',)))), 'Some'), '0'), a[0])
+    if b is not None and common.is_len_of(b['$n']) and X.canon(norm(b['$n'])[2][0] if norm(b['$n'])[0] == 'call' else norm(b['$n'])[1]) == X.canon(a[1]):
+        return 'sized-by-construction: destination is get_mut(..src.len()) unwrapped from Some, so both slices have src.len() elements'
+    return None
+
+
 def d_bounded_copy(f, s, R, db):
     if 'pyfile' not in f.path:
         return None
@@ -450,7 +464,7 @@ def d_bounded_copy(f, s, R, db):
     return None
 
 
-PY_RULES = [d_pyo3_glue, d_const_bounds, d_shape_product, d_neg_plus_len, d_ensured_some, d_const_cstr, d_alloc_size, d_row0_guarded, d_data_get_summary, d_row_guard, d_first_char,
+PY_RULES = [d_pyo3_glue, d_const_bounds, d_shape_product, d_get_range_copy, d_neg_plus_len, d_ensured_some, d_const_cstr, d_alloc_size, d_row0_guarded, d_data_get_summary, d_row_guard, d_first_char,
             d_bounded_copy, C15.d_symbol_index, C15.d_enumerate_of_same]
 
 
@@ -564,6 +578,36 @@ def r177(db, ctx):
     ctx.floor('R17.7', n, 2, 'constructions / stores of cached derived fields (1 None at From, 1 lazy fill)')
 
 
+def r178(db, ctx):
+    ctx.rule('R17.8', 'parameterised siblings: a wrapper that forwards a user argument to a core `X_with_<param>` method never also calls the default-substituting '
+                      'sibling `X` (which would silently replace the user\'s value by the default on that path)')
+    n = 0
+    for f in db.fns.values():
+        if f.crate != 'lightmotif_py' or f.promoted_of or f.raw.get('derived'):
+            continue
+        cs = [(bi, t, f.callee_short(t) or '') for bi, t in f.calls()]
+        withs = [(bi, t, c) for bi, t, c in cs if c.startswith('lightmotif') and '_with_' in c.rsplit('::', 1)[-1]]
+        for bi, t, c in withs:
+            head, last = c.rsplit('::', 1)
+            sib = head + '::' + last.split('_with_')[0]
+            hits = [(b2, t2) for b2, t2, c2 in cs if c2 == sib]
+            n += 1
+            Rf = X.Rec(f)
+            arg = norm(Rf.operand(t['args'][-1]))
+            from_param = any(x[0] == 'p' for x in X.walk(arg))
+            if not from_param:
+                ctx.fail('R17.8', f, f'argument of {last}', f'{last} receives {X.show(arg, 60)}, which does not derive from any argument of {f.name}: the user\'s '
+                         f'{last.split("_with_")[1]} is ignored on this path', span=t.get('span'))
+                continue
+            if hits:
+                ctx.fail('R17.8', f, f'call of {sib.rsplit("::", 2)[-2]}::{sib.rsplit("::", 1)[-1]}',
+                         f'{f.name} forwards a user argument through {last} on one path but calls the default-substituting {sib.rsplit("::", 1)[-1]}() on another: '
+                         f'the argument ({last.split("_with_")[1]}) is ignored there', span=hits[0][1].get('span'))
+            else:
+                ctx.ok('R17.8', f, f'{last} is the only route to {sib.rsplit("::", 1)[-1]} in {f.name}')
+    ctx.floor('R17.8', n, 2, 'calls of parameterised core siblings (log_odds, two alphabet arms)')
+
+
 def run(db, ctx):
     r171(db, ctx)
     r172(db, ctx)
@@ -572,3 +616,4 @@ def run(db, ctx):
     r175(db, ctx)
     r176(db, ctx)
     r177(db, ctx)
+    r178(db, ctx)
